@@ -52,9 +52,9 @@ theorem RTTreeA_iff (x : Obj) : RTTreeA x ↔ (C01.RTTree x.stripAttrs ∧ x.noD
 def AttrMeta (mg : Bool) (m : Meta) : Prop :=
   m = { name := m.name, id := m.id, line := m.line, mergeNames := mg, attrs := m.attrs }
 
-theorem plainMeta_stripAttrs (mg : Bool) (m : Meta) : PlainMeta mg m.stripAttrs ↔ AttrMeta mg m := by
+theorem plainMeta_stripAttrs (mg : Bool) (m : Meta) : PlainMetaPP mg m.stripAttrs ↔ AttrMeta mg m := by
   cases m
-  simp [PlainMeta, AttrMeta, Meta.stripAttrs]
+  simp [PlainMetaPP, AttrMeta, Meta.stripAttrs]
 
 /-- `RTTreeA` for a definition: enabled, not a template, good name, at least one word, good words,
     any attributes except a truthy `deprecated` -/
